@@ -106,13 +106,19 @@ fn backstep_phase(run: &mut Run) {
                 c.received = c.sent - Duration::from_millis(40);
             }
         }
+        // the slots a TCP round has after a local port collision: an abandoned (`Skipped`) slot in the middle of
+        // the round, and trailing slots that were never used
+        if k % 5 == 2 {
+            probes.insert(1 + (k % u64::from(HOPS - 1)) as usize, ProbeStatus::Skipped);
+            probes.push(ProbeStatus::NotSent);
+        }
         let t = tracer.clone();
         let r = crate::util::guarded(move || t.verif_apply_round(&Round::new(&probes, TimeToLive(HOPS), CompletionReason::TargetFound)));
         let st = tracer.snapshot();
         let n = st.round_count(FlowId(0));
         let torn = st.hops().iter().find(|h| h.total_sent() != n || h.total_recv() != n || h.samples().len() != n.min(MAX_SAMPLES));
         if let Some(h) = torn {
-            run.fail("c20-partial-round", format!("round {k} (answer of hop {} timestamped 40 ms before its probe): the snapshot after it shows round_count {n} but hop ttl {} has sent {} recv {} samples {}{}",
+            run.fail("c20-partial-round", format!("round {k} (every 7th round: the answer of hop {} time-stamped 40 ms before its probe; every 5th: a Skipped slot in mid-round): the snapshot after it shows round_count {n} but hop ttl {} has sent {} recv {} samples {}{}",
                 (k % u64::from(HOPS)) + 1, h.ttl(), h.total_sent(), h.total_recv(), h.samples().len(), if r.is_err() { " — the handler panicked while holding the write lock" } else { "" }));
             return;
         }
